@@ -320,6 +320,10 @@ class MessageManager(ClientLike):
                 if m is module:
                     continue
 
+                # removed (and reported closed) in the meantime: its id and name are free
+                if m.conn not in self.modules:
+                    continue
+
                 if m.mod_id == module.mod_id:
                     if m.unique:
                         self.logger.error(
